@@ -6,7 +6,8 @@
  *
  * What the contracts pin down (C16: "every field of the result is determined by the text"):
  *   ParseInt       on success consumed >= 1 digit, stopped at a non-digit, value in [min, max]; on failure *vp untouched
- *   ParseOffset    on success *offset = sign * seconds with hours in [min_hour, max_hour], minutes/seconds in 0..59
+ *   ParseOffset    on success *offset = (sign, flipped by a leading '-') * magnitude with 0 <= magnitude <= max_hour:59:59
+ *                  (hours, minutes and seconds are digit strings, so the magnitude is never negative - also for "-0:30")
  *   ParseDateTime  on success the WHOLE transition is assigned: date.fmt is one of J / N / M with its fields in the POSIX ranges
  *                  (exactly the precondition of TransOffset, contracts/rule.h) and time.offset within +-167:59:59
  */
@@ -42,7 +43,7 @@ const char* ParseOffset(const char* p, int min_hour, int max_hour, int sign, int
 __CPROVER_requires((p == NULL || TEXT_AT(p)) && __CPROVER_is_fresh(offset, sizeof(int_fast32_t)))
 __CPROVER_requires(-200 <= min_hour && min_hour <= max_hour && max_hour <= 200 && (sign == 1 || sign == -1))
 __CPROVER_ensures(RV == NULL ? 1 : (p != NULL && IN_TEXT(RV, p) && AFTER(RV, p) && \
-                  (long)min_hour * 3600 - 3599 <= (long)*offset * sign * (p[0] == '-' ? -1 : 1) && (long)*offset * sign * (p[0] == '-' ? -1 : 1) <= (long)max_hour * 3600 + 3599))
+                  0 <= (long)*offset * sign * (p[0] == '-' ? -1 : 1) && (long)*offset * sign * (p[0] == '-' ? -1 : 1) <= (long)max_hour * 3600 + 3599))
 __CPROVER_assigns(*offset);
 
 #define DT_FMT_OK(pt) (((pt)->date.fmt == PosixTransition_J && 1 <= (pt)->date.j.day && (pt)->date.j.day <= 365) || \
